@@ -38,3 +38,9 @@ pub open spec fn scan(iter: CharPeekIter, line: &str, off: usize, line_offset: u
 pub open spec fn errtok_wf(t: LexedToken, start: usize, end: usize, line_number: usize) -> bool {
 	t.location.line_number == line_number && start <= t.location.span.start <= t.location.span.end <= end
 }
+// the sliced `impl PartialEq for Identifier` (needed as supertrait of value_type::Identifier only, never called by the lexer)
+// is given no spec: obeys_eq_spec == false (same as spec/u_lint_spec.rs)
+impl vstd::std_specs::cmp::PartialEqSpecImpl for Identifier {
+	open spec fn obeys_eq_spec() -> bool { false }
+	open spec fn eq_spec(&self, other: &Self) -> bool { true }
+}
